@@ -1318,9 +1318,9 @@ func scanDocInv(c *core.Ctx) []ob {
 	var out []ob
 	n := 0
 	type found struct {
-		expr string
+		expr   string
 		params []string
-		pos  token.Pos
+		pos    token.Pos
 	}
 	helpers := map[string]found{}
 	docs := map[string]string{}
